@@ -163,7 +163,7 @@ func init() {
 		Assumptions: append([]string{"reflect reports the compiler's layout and type identity (model: go/types + types.SizesFor(gc, amd64)); replays run against the real reflect", "struct shapes outside the corpus are outside the claim; self-referential pointer embedding makes unfold diverge and is excluded"}, commonAssumptions...),
 		Jobs: func(tier string) []JobSpec {
 			var js []JobSpec
-			for _, h := range []string{"VListFlat", "VListDeep", "VListTag", "VListPtr", "VListDup", "VListZero", "VListNine", "VListShadow"} {
+			for _, h := range []string{"VListFlat", "VListDeep", "VListTag", "VListPtr", "VListDup", "VListZero", "VListNine", "VListShadow", "VSymList"} {
 				js = append(js, JobSpec{Group: "hseq", Harness: h, Mode: "seq"})
 			}
 			return js
@@ -178,6 +178,7 @@ func init() {
 			for _, t := range []string{"VFlat", "VDeep", "VTag", "VDup", "VZero"} {
 				js = append(js, JobSpec{Group: "optics", Harness: "VLens" + t, Mode: "seq"})
 			}
+			js = append(js, JobSpec{Group: "optics", Harness: "VSymLens", Mode: "seq"})
 			for n := 2; n <= 9; n++ {
 				for _, k := range []string{"Product", "Spectrum"} {
 					for _, m := range []string{"Type", "Name"} {
